@@ -61,8 +61,12 @@ def queries(df, q):
             rows.append(X[rs.randint(n)])
         elif r < 0.8:
             rows.append(lo + rs.uniform(-0.2, 1.2, size=d) * rng)
-        else:
+        elif r < 0.93:
             rows.append(lo + rs.uniform(-10, 11, size=d) * rng)
+        else:
+            # alternating far-below / far-above: against the correlation direction, where the density underflows
+            sign = np.where(np.arange(d) % 2 == rs.randint(2), -10.0, 11.0)
+            rows.append(lo + sign * rng)
     return np.array(rows)
 
 
@@ -149,7 +153,13 @@ def oracle(case):
         lpdf = np.atleast_1d(np.asarray(value(model.log_probability_density, base.copy(), what='log_probability_density'), dtype=float))
         pos = pdf0 > 1e-290
         require(np.all(np.abs(lpdf[pos] - lp[pos]) <= 1e-8 * (1 + np.abs(lp[pos]))), 'log_probability_density differs from log of the MVN density', tag='logpdf')
-        require(np.all(lpdf[~pos] < -600), 'log_probability_density of a zero density is %r' % lpdf[~pos][:3], tag='logpdf')
+        zero = pdf0 == 0
+        require(np.all(lpdf[zero] < -744), 'log_probability_density of a density that underflowed to 0 is %r (log of the smallest positive float is -744.4)' % lpdf[zero][:3], tag='logpdf')
+        sub = ~pos & ~zero
+        with np.errstate(divide='ignore'):
+            require(np.all(np.abs(lpdf[sub] - np.log(pdf0[sub])) <= 0.5), 'log_probability_density %r is not the log of the (tiny) density %r' % (lpdf[sub][:3], pdf0[sub][:3]), tag='logpdf')
+        if zero.any() or sub.any():
+            cls.append('underflowing-density')
     # ---- cdf on at most 6 rows ----
     kq = min(nrows, 6)
     cdf0 = np.atleast_1d(np.asarray(value(model.cumulative_distribution, base.iloc[:kq].copy(), what='cumulative_distribution'), dtype=float))
